@@ -1,118 +1,82 @@
 /-
-  Capacity — the capacity check of `put_internal` (property C24), on top of the shared Core model.
+  Capacity — vocabulary of property C24 over the shared Core model, plus the handle as it was BEFORE the
+  repair ed05539 (for the counterexample).
 
-  `MvModel/Core.lean` mirrors the code BEFORE the repair proposed in `/verif/fixes/C24.diff`: its
-  `putTail` rejects a put only when `cached_payload_end + prepared.len()` exceeds the limit (the
-  committed payload end; bytes that are pending in the WAL are ignored).  The repaired
-  `put_internal` keeps that early test and adds a second, exact one immediately before the WAL
-  appends (nothing of the handle has been touched between the two):
+  Since ed05539 `put_internal` has two capacity tests and `MvModel/Core.lean` mirrors both (`Mem.putTail`:
+  the early `cached_payload_end + prepared.len()` test, then `Mem.overCap`: `max(cached_payload_end, data_end)
+  + pending_payload_bytes + stored bytes of this put > capacity_limit`, evaluated right before the WAL
+  appends and skipped for a put that appends nothing).  This file only adds names the theorems use:
 
-      incoming = entry.payload.len() + Σ chunk_entries[i].payload.len()      -- stored bytes of THIS put
-      if entry.reuse_payload_from.is_none() || !chunk_entries.is_empty() {
-          tail = max(cached_payload_end, data_end) + pending_payload_bytes
-          if tail + incoming > capacity_limit → Err(CapacityExceeded)
-      }
-      … appends …;  pending_payload_bytes += incoming                         -- reset to 0 with every WAL checkpoint
-
-  What each definition mirrors
-  ----------------------------
-    Entry.freshBytes / freshBytes / Mem.pendingBytes   the new field `pending_payload_bytes` (= stored bytes of the
-                                                       pending Insert records without `reuse_payload_from`; the field is
-                                                       reset exactly where the pending records are checkpointed)
-    incomingBytes                                      `incoming_payload_bytes` of mutation.rs put_internal
-    Mem.overCapacity                                   the exact check
-    Mem.prePut                                         the handle at the moment of the check (`enable_vec` and the early
-                                                       dimension note of an embedded put have already happened)
-    Mem.putR / Mem.updateR / stepR / runR / traceR     put_internal / update_frame / the handle WITH the repair
+    Entry.isFresh / hasFresh     some pending record makes the next commit place a payload at `data_end`
+    incomingBytes / appendsPayload   the two ingredients of `Mem.overCap` (`incoming_payload_bytes`, and
+                                 `reuse_payload_from.is_none() || !chunk_entries.is_empty()`)
+    Mem.prePut                   the handle when `put_internal` reaches the capacity tests (`enable_vec` and the
+                                 early dimension note of an embedded put have already happened)
+    updReuse                     `reuse_frame` of `update_frame`
+    Mem.absEnd                   `cached_payload_end` (absolute)
+    Mem.putTailU / putCoreU / stepU / runU / traceU
+                                 the handle BEFORE ed05539: `put_internal` with the early test only
+                                 (mutation.rs put_internal at a939ee7); every other operation is Core's `step`
 -/
 import MvModel.Core
 namespace Mv.Core
-
-/-- stored bytes the next commit appends at the data cursor for this record -/
-def Entry.freshBytes : Entry → Nat
-  | .insert e => if e.reuseFrom.isNone then e.len else 0
-  | _ => 0
 
 /-- the record makes the next commit place a payload (possibly empty) at the data cursor -/
 def Entry.isFresh : Entry → Bool
   | .insert e => e.reuseFrom.isNone
   | _ => false
 
-def freshBytes : List (Nat × Entry) → Nat
-  | [] => 0
-  | r :: rs => r.2.freshBytes + freshBytes rs
-
 def hasFresh : List (Nat × Entry) → Bool
   | [] => false
   | r :: rs => r.2.isFresh || hasFresh rs
 
-/-- `pending_payload_bytes` -/
-def Mem.pendingBytes (m : Mem) : Nat := freshBytes m.pending
-
-def chunkBytes : List ChunkArg → Nat
-  | [] => 0
-  | c :: cs => c.len + chunkBytes cs
-
 /-- `incoming_payload_bytes`: the parent entry's own stored payload (nothing when the payload of an
     existing frame is reused) plus every chunk entry's payload -/
 def incomingBytes (a : PutArgs) (reuse : Option Nat) : Nat :=
-  (if reuse.isNone then a.len else 0) + chunkBytes a.chunks
+  (if reuse.isNone then a.len else 0) + chunkLenSum a.chunks
 
 /-- the put makes the next commit append payloads: `reuse_payload_from.is_none() || !chunk_entries.is_empty()` -/
 def appendsPayload (a : PutArgs) (reuse : Option Nat) : Bool := reuse.isNone || !a.chunks.isEmpty
 
-/-- where the payload region will end once everything pending and this put are committed -/
-def Mem.projectedEnd (m : Mem) (a : PutArgs) (reuse : Option Nat) : Nat :=
-  m.base + max m.payloadEnd m.dataEnd + m.pendingBytes + incomingBytes a reuse
-
-/-- the exact capacity check (not evaluated for a put that appends nothing: a payload-less update
-    without chunks) -/
-def Mem.overCapacity (m : Mem) (a : PutArgs) (reuse : Option Nat) : Bool :=
-  appendsPayload a reuse && decide (m.projectedEnd a reuse > m.capacityLimit)
-
-/-- the handle when `put_internal` reaches the capacity checks -/
+/-- the handle when `put_internal` reaches the capacity tests -/
 def Mem.prePut (m : Mem) (a : PutArgs) : Mem :=
   match embDims a with
   | d :: _ => m.enableVec.noteDim d
   | [] => m
 
-/-- `put_internal` with the repair: every earlier rejection as before; otherwise the exact check -/
-def Mem.putCoreR (m : Mem) (a : PutArgs) (supersedes reuse : Option Nat) (t : Trace) : Mem × Out :=
-  let r := m.putCore a supersedes reuse t
-  if !r.2.isAck then r
-  else if m.overCapacity a reuse then (m.prePut a, .err "capacity")
-  else r
-
-def Mem.putR (m : Mem) (a : PutArgs) (t : Trace) : Mem × Out := m.putCoreR a none none t
-
 /-- `reuse_frame` of `update_frame`: the old payload is reused when no new one is given -/
 def updReuse (u : UpdArgs) (id : Nat) : Option Nat := if u.payload.isNone then some id else none
 
-/-- `update_frame` with the repair -/
-def Mem.updateR (m : Mem) (id : Nat) (u : UpdArgs) (t : Trace) : Mem × Out :=
-  let r := m.update id u t
-  if !r.2.isAck then r else
-  match m.frames[id]? with
-  | none => r
-  | some old =>
-    let a := inheritArgs old u (m.carriedEmb id u.emb)
-    if m.loadVec.overCapacity a (updReuse u id) then (m.loadVec.prePut a, .err "capacity") else r
-
-/-- one operation on the repaired handle -/
-def stepR (m : Mem) : Op → Mem × Out
-  | .put a t => m.putR a t
-  | .update id u t => m.updateR id u t
-  | op => step m op
-
-def runR (m : Mem) : List Op → Mem
-  | [] => m
-  | op :: ops => runR (stepR m op).1 ops
-
-def traceR (m : Mem) : List Op → List (Op × Out)
-  | [] => []
-  | op :: ops => (op, (stepR m op).2) :: traceR (stepR m op).1 ops
-
 /-- absolute end of the payload region (`cached_payload_end`) -/
 def Mem.absEnd (m : Mem) : Nat := m.base + m.payloadEnd
+
+/-! ## The handle before the repair -/
+
+/-- `put_internal` before ed05539: only the early test against the COMMITTED payload end -/
+def Mem.putTailU (m : Mem) (a : PutArgs) (supersedes reuse : Option Nat) (t : Trace) : Mem × Out :=
+  if m.base + m.payloadEnd + a.plen > m.capacityLimit then (m, .err "capacity") else
+  ((((m.appendPut a supersedes reuse).afterAppend t).addCards a.nc m.nextFrameId), .seq (m.seq + 1))
+
+def Mem.putCoreU (m : Mem) (a : PutArgs) (supersedes reuse : Option Nat) (t : Trace) : Mem × Out :=
+  if !m.mutationAllowed then (m, .err "ticket-required") else
+  match embDims a with
+  | d :: rest =>
+    if rest.any (· != d) then (m, .err "dim-mismatch") else
+    if m.enableVec.vecDim ≠ 0 ∧ m.enableVec.vecDim ≠ d then (m.enableVec, .err "dim-mismatch") else
+    (m.enableVec.noteDim d).putTailU a supersedes reuse t
+  | [] => m.putTailU a supersedes reuse t
+
+/-- one operation on the unrepaired handle (puts; everything else is unchanged by the repair) -/
+def stepU (m : Mem) : Op → Mem × Out
+  | .put a t => m.putCoreU a none none t
+  | op => step m op
+
+def runU (m : Mem) : List Op → Mem
+  | [] => m
+  | op :: ops => runU (stepU m op).1 ops
+
+def traceU (m : Mem) : List Op → List (Op × Out)
+  | [] => []
+  | op :: ops => (op, (stepU m op).2) :: traceU (stepU m op).1 ops
 
 end Mv.Core
